@@ -7,8 +7,11 @@ import sys
 HEADS = {"field_first_parse": {"for key, field in self.fields.items():": "floop"},
          "data_first_parse": {"for key, value in data.items():": "dloop", "for key, field in self.fields.items():": "dpost"},
          # FunctionParser.parse_params (utype/parser/func.py): the positional pass and the positional-only defaults
-         "parse_params": {"for i, arg in enumerate(args):": "args", "for index, field in self.positional_only_fields:": "posonly"}}
-FILES = {"field_first_parse": "parser/base.py", "data_first_parse": "parser/base.py", "parse_params": "parser/func.py"}
+         "parse_params": {"for i, arg in enumerate(args):": "args", "for index, field in self.positional_only_fields:": "posonly"},
+         # Rule._parse_seq_args / _parse_map_args (utype/parser/rule.py): the element loops
+         "_parse_seq_args": {"for i, item in enumerate(value):": "seq"}, "_parse_map_args": {"for _key, _val in value.items():": "map"}}
+FILES = {"field_first_parse": "parser/base.py", "data_first_parse": "parser/base.py", "parse_params": "parser/func.py",
+         "_parse_seq_args": "parser/rule.py", "_parse_map_args": "parser/rule.py"}
 _lines = {}
 
 
@@ -31,6 +34,11 @@ def observe_steps(call, val, kind_of, names=("field_first_parse", "data_first_pa
             if lab:
                 loc = frame.f_locals
                 ctx = loc.get("context")
+                if frame.f_code.co_name in ("_parse_seq_args", "_parse_map_args"):
+                    res = loc.get("result", [])
+                    items = list(res.items()) if isinstance(res, dict) else [(None, v) for v in res]
+                    steps.append({"loop": lab, "keys": [val(k) for k, _ in items] if isinstance(res, dict) else [], "vals": [val(v) for _, v in items]})
+                    return local
                 if frame.f_code.co_name == "parse_params":
                     steps.append({"loop": lab, "args": [val(v) for v in loc.get("parsed_args", [])], "keys": list(loc.get("parsed_keys", [])),
                                   "errs": [kind_of(e) for e in (ctx.errors if ctx is not None else [])]})
